@@ -2,7 +2,7 @@
 
 use super::c01::{EncCase, Roundtrip, label_case, strip_digits};
 use super::c03::interleave;
-use crate::codec::{self, ReaderKind};
+use crate::codec::{self, EncErr, ReaderKind};
 use crate::engine::{Ctx, Engine, Fail, Outcome, Tier};
 use crate::iow::{Op, RecWriter, SharedWriter};
 use crate::opts::{self, Seek};
@@ -39,6 +39,10 @@ impl Engine for Crash {
                 out.fails.push(Fail::panic("encode-panic", &p));
                 return out;
             }
+            Ok(Err(EncErr::Options(_))) => {
+                out.label("options-refused");
+                return out;
+            }
             Ok(Err(e)) => {
                 out.fail(format!("encode-error:{}:{}", e.stage(), strip_digits(e.text())), format!("{e:?}"));
                 return out;
@@ -46,26 +50,35 @@ impl Engine for Crash {
             Ok(Ok(())) => {}
         }
         let rec = sw.snapshot();
-        // before finalize the output must be append-only, otherwise prefixes are not crash images
+        // crash images: while the output is append-only (what the crate does) they are the prefixes
+        // of the final byte string; an encoder that also rewrites earlier bytes before finalize is
+        // judged on the snapshot after each of its writes instead
         let mut end = 0u64;
         let mut boundaries = vec![0usize];
-        for op in &rec.ops {
-            match op {
-                Op::Write { at, len } => {
+        let mut append_only = true;
+        let mut snapshots: Vec<Vec<u8>> = vec![];
+        {
+            let mut img: Vec<u8> = vec![];
+            for op in &rec.ops {
+                if let Op::Write { at, len } = op {
                     if *at != end {
-                        out.fail("rewrite-before-finalize", format!("write of {len} bytes at {at} while the output ends at {end}"));
-                        return out;
+                        append_only = false;
                     }
-                    end += *len as u64;
+                    end = end.max(*at + *len as u64);
                     boundaries.push(end as usize);
-                }
-                Op::Seek { to } => {
-                    if *to != end {
-                        out.fail("seek-before-finalize", format!("seek to {to} while the output ends at {end}"));
-                        return out;
+                    // the recording writer keeps final content only; rebuild the image from it
+                    // for append-only output, and from the final bytes at the written range otherwise
+                    let (lo, hi) = (*at as usize, *at as usize + *len);
+                    if img.len() < hi {
+                        img.resize(hi, 0);
+                    }
+                    if hi <= rec.data.len() {
+                        img[lo..hi].copy_from_slice(&rec.data[lo..hi]);
+                    }
+                    if !append_only {
+                        snapshots.push(img.clone());
                     }
                 }
-                Op::Flush => {}
             }
         }
         let full = &rec.data;
@@ -84,6 +97,38 @@ impl Engine for Crash {
             // not a violation of the statement (it speaks about the bytes already written):
             // an encoder may hold a frame back; only recorded for the evidence
             out.label("frames-lag-behind-written-blocks");
+        }
+        if !append_only {
+            // write-call granularity only; each snapshot is judged against its own independent frame map.
+            // (A range written twice shows its final content in every snapshot: the recording writer does
+            // not keep history. Sound for rewrites of placeholders; a check of intermediate contents would
+            // need a journaling writer.)
+            out.label("output-not-append-only-before-finalize");
+            for img in &snapshots {
+                out.evals += 1;
+                let Ok((di, _)) = refdec::decode_partial(img, &Cfg::LENIENT) else { continue };
+                let n: usize = di.frames.iter().map(|f| f.bs as usize).sum();
+                let want = interleave(&di.pcm.iter().map(|c| c[..n.min(c.len())].to_vec()).collect::<Vec<_>>());
+                match guarded(|| codec::decode_with(Cursor::new(&img[..]), ReaderKind::Sample, 1000)) {
+                    Err(p) => {
+                        out.fails.push(Fail::panic("decode-panic", &p));
+                        return out;
+                    }
+                    Ok(Err(_)) => {
+                        if img.len() >= di.first_frame && di.first_frame > 0 {
+                            out.fail("prefix-with-complete-metadata-cannot-be-opened", format!("snapshot of {} bytes cannot be opened", img.len()));
+                            return out;
+                        }
+                    }
+                    Ok(Ok(got)) => {
+                        if got.samples != want {
+                            out.fail("snapshot-decodes-differently", format!("snapshot of {} bytes: {} samples delivered, {} in its complete frames", img.len(), got.samples.len(), want.len()));
+                            return out;
+                        }
+                    }
+                }
+            }
+            return out;
         }
         let points: Vec<usize> = if full.len() <= 2048 { (0..=full.len()).collect() } else { boundaries.clone() };
         if full.len() <= 2048 {
@@ -162,7 +207,7 @@ pub fn crash_case_strategy() -> BoxedStrategy<EncCase> {
 pub const RULE: &str = "each case encodes generated PCM (C01 space: declared or undeclared total x seek-table policy x padding x extra \
 metadata x front-end x chunking) through a recording writer and stops before finalize (the writer is leaked, never dropped); crash \
 images are the prefixes of the output at every write-call boundary and, for outputs up to 2 KiB, at every byte length (exhaustive per \
-case). Oracle: the pre-finalize output is append-only; for each prefix the decoder \
+case). Oracle: for each prefix (for an encoder that rewrites earlier bytes before finalize: for the snapshot after each write) the decoder \
 delivers exactly the PCM of the frames the independent frame map says lie wholly inside it, in order, then end-of-data or an error, \
 never more and never a panic; a prefix containing the complete metadata must open. Non-trivial = a prefix ending inside a frame after \
 at least one whole frame. Distinct = digest of the case.";
